@@ -24,6 +24,10 @@ COMMON_NOTE = ("Trusted base: the simulator (/verif/sim: journal, image builder,
   "Strict exploration runs under the avoidance constraints of the open findings in known_findings.json that still reproduce.")
 
 CHECKS = {
+ "C01": dict(cat="fault_enumeration", tech="deterministic simulation with fault injection: crash-image enumeration (process death + power loss at every I/O step of a journaled run), multi-round",
+   text="Per generated history every I/O step of the journaled fault-free run is a crash point (process death with every 4 KiB cut of the write in flight; power loss = files rolled back to their last synced image). Each distinct image is recovered by the real open and must contain every acknowledged commit; recovered databases are driven on with further commits and reopens, and a subset is journaled and crashed again (nested rounds, depth 3).", ref="§3 C01"),
+ "C02": dict(cat="fault_enumeration", tech="deterministic simulation with fault injection: crash-image enumeration, committed-prefix oracle",
+   text="Same images as C01 (shared engine, separate attribution): open must succeed and the dump must equal the model after the last acknowledged operation or after the operation in flight — no partial transaction, no gap, no invariant violation (dangling edge, out/in asymmetry, unresolvable label); nested rounds included.", ref="§3 C02"),
  "C04": dict(cat="exploration", tech="deterministic simulation: model-based lifecycle histories (reopen events) on the simulated disk, fault-free configuration",
    text="Seeded L1 histories with close()/drop/reopen events at arbitrary positions (mixed with compaction, index creation, abandoned transactions); a full dump through every read interface is compared with the reference model before and after each reopen, later discrepancies are attributed by re-running the twin history without the events.", ref="§3 C04"),
  "C05": dict(cat="exploration", tech="deterministic simulation: model-based lifecycle histories (compaction/checkpoint events), fault-free configuration",
